@@ -2,3 +2,4 @@ import DiplomatModel.Sexp
 import DiplomatModel.EnumGen
 import DiplomatModel.Utf8
 import DiplomatModel.Slices
+import DiplomatModel.Write
